@@ -263,6 +263,7 @@ def custom_type(ctx):
         SameName = type('Wall', (Wall,), {})      # a second registered type that happens to be CALLED Wall: still a type of its own
         space2 = StateSpace(Shape(2, 2), [floor, Wall, SameName], [Color.NONE])
         for kind in rsuite.KINDS:
+          try:
             rep = rsuite.make_state_representation(kind, space)
             a = State(Grid([[floor(), Wall()], [floor(), floor()]]), Agent(Position(1, 0), Orientation.F))
             b = State(Grid([[floor(), VerifLava()], [floor(), floor()]]), Agent(Position(1, 0), Orientation.F))
@@ -277,6 +278,8 @@ def custom_type(ctx):
                 vals = sorted({int(v) for st in (a, c) for v in rep2.convert(st)['grid'].reshape(-1, 3)[:, 0]})
                 if vals != list(range(len(vals))) and max(vals) > 3:
                     ctx.violation(f'`compact`: type values {vals} of a space with two types called `Wall` are not consecutive', {})
+          except Exception as e:  # noqa: BLE001
+            ctx.violation(f'`{kind}`: encoding states of a space with a registered subclass of Wall / a second type called `Wall` raised {type(e).__name__}: {e}', {'kind': kind})
     finally:
         for cls in [c for c in list(reg.data) if c.__name__ in ('VerifLava',) or (c.__name__ == 'Wall' and c is not Wall)]:
             while cls in reg.data:
